@@ -604,11 +604,15 @@ def _run_life(job):
     return {"rc": p.returncode, "notes": notes, "covfiles": covfiles, "stderr": p.stderr[-600:], "stray": stray}
 
 
+_LIFE_N = [0]
+
+
 def stream_lifecycle(rng, n, work):
     from multiprocessing.pool import ThreadPool
     from common import env_for_impl
 
-    d = work.sub("life")
+    _LIFE_N[0] += 1
+    d = work.sub("life%d" % _LIFE_N[0])   # one directory per shard (the thorough tier runs several)
     jobs, metas = [], []
     scenarios = [
         [("ev",), ("import", [("ev",), ("raise",)], True), ("import", [("ev",)], False), ("exit",)],
